@@ -1172,6 +1172,16 @@ impl Group {
         !self.children.is_empty()
     }
 
+    /// Checks that a group has a bounding box: a group without children,
+    /// or with only such groups inside, has nothing to compute it from.
+    fn has_bounding_box(&self) -> bool {
+        !self.filters.is_empty()
+            || self.children.iter().any(|child| match child {
+                Node::Group(ref group) => group.has_bounding_box(),
+                _ => true,
+            })
+    }
+
     /// Calculates a node's filter bounding box.
     ///
     /// Filters with `objectBoundingBox` and missing or zero `bounding_box` would be ignored.
@@ -1831,6 +1841,11 @@ impl Group {
     pub(crate) fn calculate_object_bbox(&mut self) -> Option<NonZeroRect> {
         let mut bbox = BBox::default();
         for child in &self.children {
+            // The boxes of an empty group are placeholders at the origin.
+            if matches!(child, Node::Group(ref group) if !group.has_bounding_box()) {
+                continue;
+            }
+
             let mut c_bbox = child.bounding_box();
             if let Node::Group(ref group) = child {
                 if let Some(r) = c_bbox.transform(group.transform) {
@@ -1851,6 +1866,11 @@ impl Group {
         let mut abs_stroke_bbox = BBox::default();
         let mut layer_bbox = BBox::default();
         for child in &self.children {
+            // The boxes of an empty group are placeholders at the origin.
+            if matches!(child, Node::Group(ref group) if !group.has_bounding_box()) {
+                continue;
+            }
+
             {
                 let mut c_bbox = child.bounding_box();
                 if let Node::Group(ref group) = child {
